@@ -25,7 +25,7 @@ TARGETS = ['boltons.tbutils.ParsedException.from_string', 'boltons.tbutils.Parse
            'boltons.tbutils.ExceptionInfo.get_formatted', 'boltons.tbutils.ExceptionInfo.to_dict', 'boltons.tbutils._DeferredLine.__str__']
 BOUNDS = {
     'quick': {'text': 'frames 0..2, each with/without source line, function names identifier / <module> / <lambda>, messages empty / one line / containing ": " / two lines; one free field of 1-2 characters (first from a 106-character alphabet, second from 13 format-relevant characters)',
-              'live': 'call chains of depth 1..4 over plain / lambda / source-less frames, 6 exception types, 4 message classes'},
+              'live': 'call chains of depth 1..4 over plain / lambda / source-less / run-time generated frames, 6 exception types, 4 message classes'},
     'thorough': {'text': 'frames 0..3, free field of 2 characters'},
 }
 ASSUMPTIONS = ['lines are separated by "\\n" only and no field contains a character str.splitlines breaks on', 'source lines are stripped, non-empty and do not look like a frame or marker line',
@@ -154,6 +154,11 @@ _lam = lambda nxt: nxt()                                        # noqa: E731
 _ns = {}
 exec(compile('def nosrc(nxt):\n    return nxt()\n', '<no-source-file>', 'exec'), _ns)
 _nosrc = _ns['nosrc']
+# code generated at run time inside a namespace that HAS __file__ / __name__ (like namedtuple or FunctionBuilder output)
+_ns2 = {'__file__': __file__, '__name__': __name__}
+exec(compile('def generated(nxt):\n    return nxt()\n', '<generated-code>', 'exec'), _ns2)
+_generated = _ns2['generated']
+_evlam = eval('lambda nxt: nxt()', {'__file__': __file__, '__name__': __name__})
 
 
 def _plain(nxt):
@@ -165,7 +170,7 @@ def _live_body(kinds, ti, mi):
     exc = etype(MESSAGES[mi]) if MESSAGES[mi] else etype()
     call = lambda: _raiser(exc)                                 # noqa: E731
     for k in reversed(kinds):
-        fn = [_plain, _lam, _nosrc][k]
+        fn = [_plain, _lam, _nosrc, _generated, _evlam][k]
         call = (lambda fn=fn, nxt=call: fn(nxt))
     try:
         call()
@@ -203,7 +208,7 @@ def live_law(depth: int, k0: int, k1: int, k2: int, k3: int, ti: int, mi: int) -
     post: _
     """
     depth = cz(depth, 1, pinval('dmax', 3))
-    kinds = [cz(k, 0, 2) for k in [k0, k1, k2, k3][:depth]]
+    kinds = [cz(k, 0, 4) for k in [k0, k1, k2, k3][:depth]]
     ti = cz(ti, 0, len(EXC_TYPES) - 1)
     mi = cz(mi, 0, len(MESSAGES) - 1)
     with notrace():
